@@ -2,6 +2,7 @@
 import ast
 
 from ..core import astutil as A
+from ..core import match as M
 from ..core.model import dotted
 
 META = {
@@ -36,6 +37,11 @@ def glob_expr(P, arg, off):
     return arg, off in A.names_in(arg), ""
 
 
+def _is_anchored(a):
+    """`normpath(<anything>).rstrip('/') + '/'`: the slash is appended AFTER normalisation"""
+    return any(M.pat(p).matches(a) is not None for p in ("normpath($_).rstrip('/') + '/'", "os.path.normpath($_).rstrip('/') + '/'"))
+
+
 def run(ctx):
     P = ctx.program
     ctx.explanation = META["level"]
@@ -53,17 +59,16 @@ def run(ctx):
     # list-consumed env.d keys must be declared list-valued (collapse_envd collapses every other key to a string)
     inc = A.try_literal(P.module(MOD).assigns["incrementals"].args[0]) if isinstance(P.module(MOD).assigns.get("incrementals"), ast.Call) else None
     ctx.require(inc, "triggers.incrementals table not readable")
+    envd = {}
     for f in (cpf, cif):
-        dname = None
-        for t_, v, _ in A.assignments(f.node):
-            if "collapse_envd(" in A.unparse(v) and isinstance(t_, ast.Tuple):
-                dname = t_.elts[0].id
-        ctx.require(dname, f"{f.qual}: collapse_envd result not found")
+        dm = M.one(f.node, "$d, $_, $_ = collapse_envd($_)")
+        ctx.require(dm is not None, f"{f.qual}: collapse_envd result not found")
+        dname = envd[f.qual] = dm["d"]
         keys = set()
         for n in A.walk(f.node):
-            if isinstance(n, ast.Subscript) and A.unparse(n.value) == dname and isinstance(n.slice, ast.Constant):
+            if isinstance(n, ast.Subscript) and isinstance(n.value, ast.Name) and n.value.id == dname and isinstance(n.slice, ast.Constant):
                 keys.add(n.slice.value)
-            if isinstance(n, ast.Call) and A.call_attr(n) in ("setdefault", "get", "pop") and A.unparse(n.func.value) == dname and n.args and isinstance(n.args[0], ast.Constant) and len(n.args) > 1 and isinstance(n.args[1], ast.List):
+            if isinstance(n, ast.Call) and A.call_attr(n) in ("setdefault", "get", "pop") and isinstance(n.func.value, ast.Name) and n.func.value.id == dname and n.args and isinstance(n.args[0], ast.Constant) and len(n.args) > 1 and isinstance(n.args[1], ast.List):
                 keys.add(n.args[0].value)
         for k in sorted(keys):
             ctx.check("R1", f, k in inc, f"list-key-declared:{k}", f"{k} is consumed as a list and is declared list-valued in `incrementals`",
@@ -74,76 +79,96 @@ def run(ctx):
     globs = [c for c in A.calls(cpf.node) if (dotted(c.func) or "").endswith("StrGlobMatch")]
     ctx.check("R2", cpf, len(globs) == 3, f"glob-sites:{len(globs)}", "gen_config_protect_filter builds the protect globs and the single/multiple mask globs (3 sites)")
     off = cpf.params()[0]
+    E = {"d": envd[cpf.qual]}
+    # the local holding the mask entries, found by how it is produced
+    negm = M.one(cpf.node, "$neg = stable_unique($d['CONFIG_PROTECT_MASK'])", E)
+    negname = negm["neg"] if negm else None
     for c in globs:
         a, uses_off, via = glob_expr(P, c.args[0], off)
-        ok = isinstance(a, ast.BinOp) and isinstance(a.op, ast.Add) and A.is_const(a.right, "/") and "normpath(" in A.unparse(a.left) and A.unparse(a.left).endswith(".rstrip('/')")
-        kind = "mask" if any(k.arg == "negate" for k in c.keywords) or "neg" in A.unparse(c) + A.unparse(getattr(c, "_parent", c)) else "protect"
+        ok = _is_anchored(a)
+        comp = A.enclosing(c, (ast.ListComp, ast.GeneratorExp, ast.SetComp))
+        from_mask = negname is not None and (negname in A.names_in(c) or comp is not None and any(negname in A.names_in(g.iter) for g in comp.generators))
+        kind = "mask" if any(k.arg == "negate" for k in c.keywords) or from_mask else "protect"
         ctx.check("R2", cpf, ok, f"dir-anchored@{kind}:{A.unparse(c.args[0])[:44]}",
                   f"{kind} glob `{A.unparse(c.args[0])[:50]}`{via} ends with '/' appended after normalisation (matches only inside that directory)",
                   f"the {kind} glob `{A.unparse(c.args[0])}`{via} is not directory-anchored (normpath drops a trailing '/'): a masked `<dir>/env.d` also unprotects `<dir>/env.d.local/...`", node=c)
         ctx.check("R5", cpf, uses_off, f"offset-joined@{kind}:{A.unparse(c.args[0])[:44]}",
                   f"{kind} glob joins the engine offset into the configured root-relative path",
                   f"the {kind} glob `{A.unparse(c.args[0])}` is built from a root-relative configured path without the offset, while csets carry offset-prefixed locations: with a non-'/' offset it never matches", node=c)
-    t = A.unparse(cpf.node)
-    ctx.check("R2", cpf, "collapsed_d['CONFIG_PROTECT'] + ['/etc']" in t, "etc-always-protected", "/etc is always protected")
+    ctx.check("R2", cpf, M.has(cpf.node, "$d['CONFIG_PROTECT'] + ['/etc']", E), "etc-always-protected", "/etc is always protected")
     negs = [c for c in A.calls(cpf.node) if any(k.arg == "negate" and A.try_literal(k.value) is True for k in c.keywords)]
     ctx.check("R2", cpf, len(negs) == 2, "mask-negated", "the mask restriction is negated in both the single and the multiple form")
-    ctx.check("R2", cpf, "values.AndRestriction(r, r2)" in t, "protect-and-not-masked", "protected = under CONFIG_PROTECT and not under CONFIG_PROTECT_MASK")
+    # every negated mask restriction lands in one local ($r2) which is ANDed onto the protect restriction that is returned
+    r2s = {t_.id for c in negs for st in [A.stmt_of(c)] if isinstance(st, ast.Assign) and st.value is c for t_ in st.targets if isinstance(t_, ast.Name)}
+    anded = len(r2s) == 1 and M.has(cpf.node, "if $neg:\n    $r = values.AndRestriction($r, $r2)\nreturn $r", {"r2": next(iter(r2s)), **({"neg": negname} if negname else {})})
+    ctx.check("R2", cpf, anded, "protect-and-not-masked", "protected = under CONFIG_PROTECT and not under CONFIG_PROTECT_MASK")
     ctx.floor("R2", 6)
 
     # ---- R3 pending updates ------------------------------------------------------------------
     tr = P.func(MOD, "ConfigProtectInstall.trigger")
-    upd = [(t_, v, st) for t_, v, st in A.assignments(tr.node, "updates")]
-    ctx.require(upd, "ConfigProtectInstall.trigger: `updates` table not found")
-    v = upd[0][1]
+    # the per-directory pass, its three steps located by their roles: the table of pending updates, the scan of the
+    # existing ._cfg files, the renaming of the incoming entries
+    frame = M.one(tr.node, "for $dir, $entries in $_.items():\n    $updates = $$init\n    for $x in $existing:\n        ...\n    for $fname, $entry in $entries:\n        ...")
+    ctx.require(frame is not None, "ConfigProtectInstall.trigger: `updates` table / scan of existing ._cfg files / rename loop not found")
+    E = dict(frame.env)
+    v = E.pop("$init")
+    upd_st = M.one(frame.node, "$updates = $_", E).node
     ok = isinstance(v, ast.DictComp) and isinstance(v.value, ast.List) and not v.value.elts
     ctx.check("R3", tr, ok, "own-list-per-file", "every protected file gets its own list of pending updates",
-              f"`updates = {A.unparse(v)[:60]}`: the files of one directory share one list of pending updates, so a file can reuse (and overwrite) a sibling's ._cfgNNNN_ number", node=upd[0][2])
-    ex_loop = [n for n in A.body_walk(tr.node) if isinstance(n, ast.For) and A.unparse(n.iter) == "existing"]
-    ctx.require(ex_loop, "ConfigProtectInstall.trigger: scan of existing ._cfg files not found")
-    entry = A.unparse(ex_loop[0].target)
-    app = [c for c in A.calls(ex_loop[0]) if A.call_attr(c) == "append" and "updates[" in A.unparse(c.func)]
+              f"`{E['updates']} = {A.unparse(v)[:60]}`: the files of one directory share one list of pending updates, so a file can reuse (and overwrite) a sibling's ._cfgNNNN_ number", node=upd_st)
+    ex_loop = M.one(frame.node, "for $x in $existing:\n    ...", E).node
+    rn_loop = M.one(frame.node, "for $fname, $entry in $entries:\n    ...", E).node
+    entry = E["x"]
+    app = M.find(ex_loop, "$updates[$_].append($$rec)", E)
     ctx.require(app, "ConfigProtectInstall.trigger: recording of pending updates not found")
-    rec = app[0].args[0]
-    ok = isinstance(rec, ast.Tuple) and len(rec.elts) == 2 and A.unparse(rec.elts[1]) == entry
+    rec = app[0]["$rec"]
+    ok = isinstance(rec, ast.Tuple) and len(rec.elts) == 2 and isinstance(rec.elts[1], ast.Name) and rec.elts[1].id == entry
     ctx.check("R3", tr, ok, "records-pending-file-name", f"a pending update is recorded with the name of the ._cfgNNNN_ file itself (`{entry}`)",
-              f"pending updates are recorded as `{A.unparse(rec)}`: the incoming file is later compared with the LIVE file instead of the pending ._cfgNNNN_ update, so an identical pending update is never reused", node=app[0])
-    cmp = [c for c in A.calls(tr.node) if dotted(c.func) == "simple_chksum_compare" and "cfg_fname" in A.unparse(c)]
-    ctx.check("R3", tr, len(cmp) == 1 and "livefs.gen_obj(pjoin(dir_loc, cfg_fname))" in A.unparse(cmp[0]) and A.unparse(cmp[0].args[1]) == "entry", "compares-pending-with-incoming", "reuse is decided by comparing the pending file on disk with the incoming entry")
-    t = A.unparse(tr.node)
-    ctx.check("R3", tr, "count = cfg_count\n" in t and "count = max(count, cfg_count + 1)" in t, "number-choice", "an identical pending update's number is reused, otherwise the number exceeds every existing one")
-    ctx.check("R3", tr, "x[5:9]" in t and "x[9] != '_'" in t and "x[10:]" in t and "startswith('._cfg')" in t, "cfg-name-format", "pending files are ._cfgNNNN_<name>")
-    ctx.check("R3", tr, "f'._cfg{count:04d}_{fname}'" in t, "new-name-format", "the incoming file is written as ._cfgNNNN_<name> beside the protected file")
-    ctx.check("R3", tr, "self.renames[new_entry] = entry" in t and "install_cset.remove(entry)" in t and "install_cset.add(new_entry)" in t, "rename-recorded", "the renamed entry replaces the original in the install set and the mapping is recorded")
-    guard = [n for n in A.body_walk(tr.node) if isinstance(n, ast.If) and "protected_filter(x.location)" in A.unparse(n.test)]
-    ctx.check("R3", tr, bool(guard) and A.unparse(guard[0].test) == "not ignore_filter(x.location) and protected_filter(x.location)" and "not simple_chksum_compare(replacement, x)" in A.unparse(guard[0]), "protect-condition", "a file is protected when it is under CONFIG_PROTECT, not collision-ignored, and differs from the incoming file")
+              f"pending updates are recorded as `{A.unparse(rec)}`: the incoming file is later compared with the LIVE file instead of the pending ._cfgNNNN_ update, so an identical pending update is never reused", node=app[0].node)
+    pend = M.one(rn_loop, "for $cc, $cf in $updates[$fname]:\n    ...", E)
+    ncmp = len([c for c in A.calls(pend.node) if dotted(c.func) == "simple_chksum_compare"]) if pend else 0
+    ctx.check("R3", tr, ncmp == 1 and M.has(rn_loop, "for $cc, $cf in $updates[$fname]:\n    if simple_chksum_compare(livefs.gen_obj(pjoin($dir, $cf)), $entry):\n        ...", E), "compares-pending-with-incoming", "reuse is decided by comparing the pending file on disk with the incoming entry")
+    num = M.one(rn_loop, "$count = 0\nfor $cc, $cf in $updates[$fname]:\n    if $_:\n        $count = $cc\n        break\n    $count = max($count, $cc + 1)", E)
+    ctx.check("R3", tr, num is not None, "number-choice", "an identical pending update's number is reused, otherwise the number exceeds every existing one")
+    if num is not None:
+        E["count"] = num["count"]
+    ctx.check("R3", tr, M.has(frame.node, "$existing = sorted($y for $y in listdir_files($dir) if $y.startswith('._cfg'))", E)
+              and M.has(ex_loop, "try:\n    $n = int($x[5:9])\n    if $x[9] != '_':\n        ...\n    $fn = $x[10:]\nexcept (ValueError, IndexError):\n    continue\nif $fn in $updates:\n    $updates[$fn].append(($n, $_))", E),
+              "cfg-name-format", "pending files are ._cfgNNNN_<name>")
+    nf = M.one(rn_loop, "$newfn = pjoin($dir, f'._cfg{$count:04d}_{$fname}')", E)
+    ctx.check("R3", tr, nf is not None, "new-name-format", "the incoming file is written as ._cfgNNNN_<name> beside the protected file")
+    if nf is not None:
+        E["newfn"] = nf["newfn"]
+    ne = M.one(rn_loop, "$newent = $entry.change_attributes(location=$newfn)", E)
+    ctx.check("R3", tr, ne is not None and M.has(rn_loop, "install_cset.remove($entry)", E) and M.has(rn_loop, "install_cset.add($newent)\nself.renames[$newent] = $entry", ne.env), "rename-recorded", "the renamed entry replaces the original in the install set and the mapping is recorded")
+    filt = M.one(tr.node, "$prot = gen_config_protect_filter(engine.offset, ...).match\n$ign = gen_collision_ignore_filter(engine.offset).match")
+    ctx.check("R3", tr, filt is not None and M.has(tr.node, "for $x in existing_cset.iterfiles():\n    if not $ign($x.location) and $prot($x.location):\n        $repl = install_cset[$x]\n        if not simple_chksum_compare($repl, $x):\n            ...", {"prot": filt["prot"], "ign": filt["ign"]}), "protect-condition", "a file is protected when it is under CONFIG_PROTECT, not collision-ignored, and differs from the incoming file")
     rs = P.func(MOD, "ConfigProtectInstall_restore.trigger")
-    t2 = A.unparse(rs.node)
-    ctx.check("R3", rs, "for new_entry, old_entry in self.renames.items()" in t2.replace("(new_entry, old_entry)", "new_entry, old_entry") and "install_cset.add(old_entry)" in t2 and "self.renames.clear()" in t2, "restore-closes-map", "after the merge every renamed entry is recorded under its real name again")
+    ctx.check("R3", rs, M.has(rs.node, "for $new, $old in self.renames.items():\n    install_cset.add($old)\nself.renames.clear()"), "restore-closes-map", "after the merge every renamed entry is recorded under its real name again")
     reg = P.func(MOD, "ConfigProtectInstall.register")
-    ctx.check("R3", reg, "ConfigProtectInstall_restore(self.renames)" in A.unparse(reg.node), "restore-registered", "the restore trigger shares the rename map and is registered with the protect trigger")
+    ctx.check("R3", reg, M.has(reg.node, "ConfigProtectInstall_restore(self.renames)"), "restore-registered", "the restore trigger shares the rename map and is registered with the protect trigger")
     ctx.floor("R3", 10)
 
     # ---- R4 uninstall ------------------------------------------------------------------------------
     un = P.func(MOD, "ConfigProtectUninstall.trigger")
-    loops = [n for n in un.node.body if isinstance(n, ast.For)]
-    ctx.require(loops, "ConfigProtectUninstall.trigger: scan loop not found")
-    tries = [n for n in A.body_walk(un.node) if isinstance(n, ast.Try) and any("FileNotFoundError" in A.unparse(h.type) for h in n.handlers if h.type is not None)]
+    scan = M.one(un.node, "for $x in existing_cset.iterfiles():\n    ...")
+    ctx.require(scan is not None, "ConfigProtectUninstall.trigger: scan loop not found")
+    tries = [n for n in A.body_walk(un.node) if isinstance(n, ast.Try) and any("FileNotFoundError" in A.names_in(h.type) for h in n.handlers if h.type is not None)]
     ctx.require(tries, "ConfigProtectUninstall.trigger: vanished-file handling not found")
-    inside = any(p is loops[0] for p in A.parents(tries[0]))
+    inside = any(p is scan.node for p in A.parents(tries[0]))
     ctx.check("R4", un, inside, "vanished-file-skips-only-itself", "the try/except for a file that vanished sits inside the per-file loop",
               "ConfigProtectUninstall.trigger wraps the whole scan in the try/except: one vanished file aborts the scan and every later edited protected file stays in the uninstall set and is removed", node=tries[0])
-    t = A.unparse(un.node)
-    ctx.check("R4", un, "if not simple_chksum_compare(recorded_ent, x):\n" in t and "remove.append(recorded_ent)" in t and "del uninstall_cset[x]" in t, "differing-file-kept", "a protected file whose content differs from the recorded checksum is taken out of the uninstall set")
-    ctx.check("R4", un, "recorded_ent = uninstall_cset[x]" in t, "compares-recorded", "the comparison is between the recorded entry and the live file")
+    recm = M.one(scan.node, "$rec = uninstall_cset[$x]", scan.env)
+    ctx.check("R4", un, recm is not None, "compares-recorded", "the comparison is between the recorded entry and the live file")
+    kept = recm is not None and M.one(scan.node, "if not simple_chksum_compare($rec, $x):\n    $remove.append($rec)", recm.env)
+    ctx.check("R4", un, bool(kept) and M.has(un.node, "for $y in $remove:\n    del uninstall_cset[$y]", {"remove": kept["remove"]}), "differing-file-kept", "a protected file whose content differs from the recorded checksum is taken out of the uninstall set")
     ctx.floor("R4", 3)
 
     # ---- R5 offset discipline ------------------------------------------------------------------------
-    sib = {"pkgcore.merge.triggers:BaseSystemUnmergeProtection.trigger": "pjoin(engine.offset, x)"}
     f = P.func("pkgcore.merge.triggers", "BaseSystemUnmergeProtection.trigger")
-    ctx.check("R5", f, "pjoin(engine.offset, x)" in A.unparse(f.node), "offset-joined:BaseSystemUnmergeProtection", "sibling: base-system protection joins the engine offset into its root-relative paths")
+    ctx.check("R5", f, M.has(f.node, "(pjoin(engine.offset, $x) for $x in self._block)"), "offset-joined:BaseSystemUnmergeProtection", "sibling: base-system protection joins the engine offset into its root-relative paths")
     off2 = cif.params()[0]
-    joined = any(off2 in A.names_in(v) for t_, v, _ in A.assignments(cif.node) if "collapse_envd" not in A.unparse(v))
+    joined = any(off2 in A.names_in(v) for t_, v, _ in A.assignments(cif.node) if not (isinstance(v, ast.Call) and dotted(v.func) == "collapse_envd"))
     ctx.check("R5", cif, joined, "offset-joined:gen_collision_ignore_filter", "gen_collision_ignore_filter joins the offset into the absolute patterns it builds",
               "gen_collision_ignore_filter reads env.d under the offset but builds its patterns from root-relative paths without the offset, while the csets it is matched against carry offset-prefixed locations", node=cif.node)
     ctx.floor("R5", 5)
